@@ -307,6 +307,8 @@ def r6(chk, ctx, handlers):
 
 
 def run(chk, ctx):
+    from . import c08
+    c08.r1(chk, ctx)          # 'timestamps by instant': every Timestamp* operator goes through this parser
     handlers = r1(chk, ctx)
     r2(chk, ctx, handlers)
     r3(chk, ctx, handlers)
